@@ -229,3 +229,10 @@ var _ = shared.NewCounter
 //@   requires stmt != nil
 //@   ensures [action-is-the-identifier C09] is(stmt.ReturnExpression, *ast.Ident) && stmt.ReturnExpression.(*ast.Ident) != nil ==> result == State(stmt.ReturnExpression.(*ast.Ident).Value)
 //@   ensures [bare-return C09] isnil(stmt.ReturnExpression) ==> result == BARE_RETURN
+
+// ---- C13: a prefix operator does not change its operand ----------------------------------------------------
+// The value computed for `-x` / `!x` is a new object: the operand (which may be the stored value of
+// a variable) is not the result and is not written.
+//@ func (*Interpreter).ProcessPrefixExpression [C13]
+//@   ensures [negation-yields-a-new-value C13] err == nil && exp.Operator == "-" ==> fresh(result)
+//@   ensures [not-yields-a-new-value C13] err == nil && exp.Operator == "!" ==> fresh(result)
